@@ -25,12 +25,13 @@ import (
 type plusWrite struct {
 	Method  string `json:"method"`
 	Path    string `json:"path"`
-	Worker  int    `json:"worker"`  // version of the worker that served the request
-	Current int    `json:"current"` // version NGINX is at
+	Worker   int    `json:"worker"`   // version of the worker that served the request
+	Current  int    `json:"current"`  // version NGINX is at
+	Expected int    `json:"expected"` // version the manager is at (the one a confirming worker must have)
 }
 
 type plusStep struct {
-	Op     string      `json:"op"` // "push" | "reload" | "read"
+	Op     string      `json:"op"` // "push" | "spush" (stream) | "reload" | "badreload" (the manager moved on, NGINX did not) | "read"
 	Err    bool        `json:"err"`
 	Writes []plusWrite `json:"writes"`
 }
@@ -136,6 +137,12 @@ func runPlusCase(c *plusCase) {
 		switch op {
 		case "push":
 			st.Err = lm.UpdateServersInPlus("ups", []string{"10.0.0.1:80"}, nginx.ServerConfig{MaxFails: 1, FailTimeout: "10s"}) != nil
+		case "spush":
+			st.Err = lm.UpdateStreamServersInPlus("sups", []string{"10.0.0.1:53"}) != nil
+		case "badreload":
+			// the manager wrote a new configuration and counted a reload, but NGINX rejected it (or timed out): every
+			// worker still has the old configuration and answers the version check of the new one with 503
+			lm.VerifBumpVersion()
 		case "read":
 			_, e := pc.GetHTTPServers(context.Background(), "ups")
 			st.Err = e != nil
@@ -147,6 +154,9 @@ func runPlusCase(c *plusCase) {
 			f.mu.Unlock()
 		}
 		st.Writes = f.take()
+		for i := range st.Writes {
+			st.Writes[i].Expected = lm.VerifConfigVersion()
+		}
 		c.Steps = append(c.Steps, st)
 	}
 }
@@ -166,6 +176,12 @@ func plusMain(out string, n int) {
 		{"read", "push", "reload", "read", "push", "reload", "push"},
 		{"reload", "push", "push"},
 		{"push", "reload", "reload", "push"},
+		// a reload that NGINX did not follow: no push may reach a worker until one confirms the manager's version -
+		// the first, the second and the third push alike, HTTP and stream upstreams
+		{"badreload", "push", "push", "push"},
+		{"push", "badreload", "push", "spush", "push"},
+		{"badreload", "spush", "spush", "push"},
+		{"reload", "push", "badreload", "push", "push", "reload", "spush"},
 	}
 	for i := 0; i < n; i++ {
 		c := plusCase{Fam: "plusconn", ID: i, Ops: seqs[i%len(seqs)]}
